@@ -26,7 +26,7 @@ cd /verif
 out=$(VERIF_REPO=$wt timeout 2400 /verif/bin/verif check $prop --tier $tier 2>&1); rc=$?
 cd /; git -C /repo worktree remove --force $wt
 echo "check $prop ($tier) rc=$rc"; echo "$out" | grep -E "VIOLATION|INCONCLUSIVE" | cut -c1-250 | head -6
-mkdir -p /verif/seeded/$name; cp $src/patch.diff $src/demo_test.go /verif/seeded/$name/
+mkdir -p /verif/seeded/$name; cp $src/patch.diff $src/demo_test.go /verif/seeded/$name/; [ -f $src/patch.orig.diff ] && cp $src/patch.orig.diff /verif/seeded/$name/
 python3 - "$src/meta.json" "/verif/seeded/$name/meta.json" "$without" "$with" "${suite2:-none}" "$rc" "$tier" "$(echo "$out" | grep -E 'VIOLATION' | head -3)" <<'PY'
 import json,sys
 src,dst,without,withc,suite,rc,tier,viol=sys.argv[1:9]
